@@ -2,6 +2,7 @@ package priority
 
 import (
 	"github.com/akramarenkov/cqos/v2/priority/divider"
+	"github.com/akramarenkov/cqos/v2/priority/internal/common"
 )
 
 // C15 / C05-init / C06-P0 (v2): the constructor.
@@ -168,4 +169,40 @@ func VerifC15_round_fault() {
 	}
 	vAssert(err == nil, "C15: no error without a divider fault")
 	vReach("nofault")
+}
+
+// C05 / C15, boundary instance: lists LONGER than the symbolic bound (sorting code tends to switch algorithm at a
+// size threshold). Concrete distinct values in a few arrangements; no symbolic data.
+// gosym: mode=int
+func VerifC15_sort_large() {
+	n := vParam("n", 9)
+	vals := make([]uint, n)
+	switch vChoose("arrangement", 4) {
+	case 0:
+		for i := range vals {
+			vals[i] = uint(i + 1)
+		}
+	case 1:
+		for i := range vals {
+			vals[i] = uint(n - i)
+		}
+	case 2:
+		for i := range vals {
+			if i%2 == 0 {
+				vals[i] = uint(i/2 + 1)
+			} else {
+				vals[i] = uint(n - i/2)
+			}
+		}
+	case 3:
+		for i := range vals {
+			vals[i] = uint((i+n/2)%n + 1)
+		}
+	}
+	sorted := append([]uint{}, vals...)
+	common.SortPriorities(sorted)
+	for i := 0; i+1 < n; i++ {
+		vAssert(sorted[i] > sorted[i+1], "C05/C15: priorities are sorted from highest to lowest before every division")
+	}
+	vReach("end")
 }
